@@ -49,7 +49,11 @@ def int_lits_by_value(tokens):
             if t.endswith(suf) and t[:-len(suf)]: t = t[:-len(suf)]; break
         try: return 'L %d' % int(t, 0) if not (len(t) > 1 and t[0] == '0' and t[1].isdigit()) else 'L %d' % int(t)
         except ValueError: return m.group(0)
-    return re.sub(r'L (\d[0-9A-Za-z_]*)', val, tokens)
+    tokens = re.sub(r'L (\d[0-9A-Za-z_]*)', val, tokens)
+    # a const generic argument is kept by the macro as a NAME whose text is the literal: the model prints it as an identifier token
+    tokens = re.sub(r"I -(\d\w*)", r"P - L \1", tokens)
+    tokens = re.sub(r"I (\d\w*|'[^' ]+')", r"L \1", tokens)
+    return tokens
 
 def parser_tie(res, seed, n, dist):
     """pd dump of /repo's parser vs the extracted Coq model of next_type, on generated field types"""
@@ -127,7 +131,7 @@ def parser_tie(res, seed, n, dist):
                 res.add_broken('correspondence', 'Type::full() no longer prints a supported field type back as the tokens written (print_parse_roundtrip no longer describes the code)', f"type `{t}`: printed {ip[:200]}")
         if drv and mp not in (None, '-') and impl.get(name) not in ('PANIC', None):
             npr += 1
-            if mp != ip:
+            if int_lits_by_value(mp) != int_lits_by_value(ip):
                 nd += 1
                 if nd == 1:
                     res.add_broken('correspondence', 'Coq model of the type printer (Type::full) differs from derive/src/parse.rs', f"type `{t}`: model {mp[:200]} | impl {ip[:200]}")
@@ -175,7 +179,7 @@ def parser_tie(res, seed, n, dist):
         md = model_int.get(name, {})
         for tag, v in d.items():
             nint += 1
-            if md.get(tag) != v:
+            if int_lits_by_value(md.get(tag) or '') != int_lits_by_value(v):
                 nd += 1
                 if nd == 1:
                     res.add_broken('correspondence', 'Coq model of the attribute interpretation (derive/src/shared.rs) / of the used-parameter helpers (derive/src/difference.rs) differs from the implementation',
@@ -201,7 +205,7 @@ def derive_items(src):
 
 def canon_header(text):
     """canonical form of an item header: bound lists come out of a HashSet in the implementation, and rustc gives no meaning to the order of attributes, of derive paths, of where predicates or of the bounds inside one: all sorted on both sides (enum BODIES are compared exactly: the order of variants is their wire index)"""
-    toks = text.split()
+    toks = int_lits_by_value(text).split()
     # token units: 'I x' / 'P c' / 'L v' are two words, group brackets one
     units, i = [], 0
     while i < len(toks):
